@@ -10,8 +10,8 @@ open Pyr Pyr.Trav Pyr.Pct
 proposition, discharged by `decide` in `Props/C17.lean` against the *current* `Gen/C17.lean`:
 each set lies inside the character class of the component it is used
 in and never holds `%`; element / resource-name sets do not hold `/`; the sets used for paths hold `/` where the
-code relies on it; `quote_plus`'s set holds none of `+ & =`; WebOb's `PATH_SAFE` is the same set as the one
-`_quoted_script_name` uses. -/
+code relies on it; `quote_plus`'s set holds none of `+ & =`; WebOb's `PATH_SAFE` keeps the same bytes as the set
+`_quoted_script_name` uses (modulo the always-safe ones). -/
 def genOk : Bool :=
   safeWithin isPcharC Gen.elementSafe && !Gen.elementSafe.contains 47 &&
   safeWithin isPcharC Gen.resNameSafe && !Gen.resNameSafe.contains 47 &&
@@ -21,7 +21,8 @@ def genOk : Bool :=
   safeWithin isQueryC Gen.querySafe &&
   safeWithin isQueryC Gen.anchorSafe &&
   safeWithin isQueryC Gen.plusSafe && Gen.plusSafe.all (fun b => b != 43 && b != 38 && b != 61) &&
-  (List.range 256).all (fun n => webobPathSafe.contains (UInt8.ofNat n) == Gen.scriptSafe.contains (UInt8.ofNat n)) &&
+  (List.range 256).all (fun n => (isUnreserved (UInt8.ofNat n) || webobPathSafe.contains (UInt8.ofNat n)) ==
+      (isUnreserved (UInt8.ofNat n) || Gen.scriptSafe.contains (UInt8.ofNat n))) &&
   (List.range 256).all (fun n => isUnreserved (UInt8.ofNat n) == Gen.alwaysSafe.contains (UInt8.ofNat n))
 
 structure GenFacts : Prop where
@@ -38,7 +39,7 @@ structure GenFacts : Prop where
   anchor : safeWithin isQueryC Gen.anchorSafe = true
   plus : safeWithin isQueryC Gen.plusSafe = true
   plusOk : PlusSafeOk Gen.plusSafe
-  webob : ∀ b : UInt8, webobPathSafe.contains b = Gen.scriptSafe.contains b
+  webob : ∀ b : UInt8, (isUnreserved b || webobPathSafe.contains b) = (isUnreserved b || Gen.scriptSafe.contains b)
 
 theorem genFacts_of_genOk (h : genOk = true) : GenFacts := by
   unfold genOk at h
